@@ -542,10 +542,28 @@ func (in *inliner) expandStmt(pk *packages.Package, file *ast.File, encl *ast.Fu
 			return nil, false
 		}
 	}
+	// `return f(x)`: the callee's returns become the caller's returns (no temporaries, no
+	// run-once loop), so each outcome keeps its own return statement
+	tail := isReturn && encl != nil && enclHasNoNamedResults(encl)
 	// `return a, b` -> `r0, r1 = a, b; break L`
 	okRet := true
 	rewriteReturns(body, func(r *ast.ReturnStmt) []ast.Stmt {
 		var out []ast.Stmt
+		if tail {
+			switch {
+			case len(r.Results) == nres:
+				return []ast.Stmt{&ast.ReturnStmt{Results: r.Results}}
+			case len(r.Results) == 0 && len(namedResults) == nres && nres > 0:
+				var rr []ast.Expr
+				for _, n := range namedResults {
+					rr = append(rr, ast.NewIdent(n))
+				}
+				return []ast.Stmt{&ast.ReturnStmt{Results: rr}}
+			default:
+				okRet = false
+				return []ast.Stmt{r}
+			}
+		}
 		if len(r.Results) == nres && nres > 0 {
 			var l []ast.Expr
 			for _, n := range results {
@@ -568,7 +586,9 @@ func (in *inliner) expandStmt(pk *packages.Package, file *ast.File, encl *ast.Fu
 	if !okRet {
 		return nil, false
 	}
-	body.List = append(body.List, &ast.BranchStmt{Tok: token.BREAK, Label: ast.NewIdent(label.Name)})
+	if !tail {
+		body.List = append(body.List, &ast.BranchStmt{Tok: token.BREAK, Label: ast.NewIdent(label.Name)})
+	}
 	inner := &ast.BlockStmt{}
 	for i, n := range namedResults {
 		if n == "_" {
@@ -600,6 +620,16 @@ func (in *inliner) expandStmt(pk *packages.Package, file *ast.File, encl *ast.Fu
 				inner.List = append(inner.List, &ast.AssignStmt{Lhs: []ast.Expr{ast.NewIdent("_")}, Tok: token.ASSIGN, Rhs: []ast.Expr{ast.NewIdent(n.(*ast.Ident).Name)}})
 			}
 		}
+	}
+	if tail {
+		inner.List = append(inner.List, body.List...)
+		if nres == 0 {
+			inner.List = append(inner.List, &ast.ReturnStmt{})
+		}
+		in.inlined[fn.FullName()]++
+		in.expanded[fn]++
+		in.changed[file] = true
+		return []ast.Stmt{inner}, true
 	}
 	inner.List = append(inner.List, &ast.LabeledStmt{Label: label, Stmt: &ast.ForStmt{Body: body}})
 	pre = append(pre, inner)
@@ -1727,4 +1757,16 @@ func simplifyAddrDeref(n ast.Node) {
 		}
 		return true
 	})
+}
+
+func enclHasNoNamedResults(fd *ast.FuncDecl) bool {
+	if fd.Type.Results == nil {
+		return true
+	}
+	for _, f := range fd.Type.Results.List {
+		if len(f.Names) > 0 {
+			return false
+		}
+	}
+	return true
 }
